@@ -1,0 +1,12 @@
+//go:build verif
+
+package bstream
+
+import "time"
+
+// VerifSetRestartDelays shortens the eternal-source restart delay and the multiplexed-source reconnect delay
+// (unexported package variables) for the external verification harness. Only compiled with the `verif` tag.
+func VerifSetRestartDelays(eternal, reconnect time.Duration) {
+	eternalRestartWaitTime = eternal
+	sourceReconnectDelay = reconnect
+}
